@@ -145,6 +145,38 @@ func runNative(ld *Loaded, cases []ReplayCase, race bool, isolate bool) (map[int
 				cp := filepath.Join(tmp, fmt.Sprintf("case%d_%d.json", di, c.ID))
 				os.WriteFile(cp, one, 0o644)
 				out, _ := runOne(cp)
+				// a schedule-dependent prediction needs the interleaving to happen: repeat (batches of 8)
+				hit := func(o []byte) bool {
+					if bytes.Contains(o, []byte("WARNING: DATA RACE")) {
+						return true
+					}
+					var probe NativeResult
+					if i := bytes.Index(o, []byte("VFRESULT ")); i >= 0 {
+						line := o[i+9:]
+						if j := bytes.IndexByte(line, '\n'); j >= 0 {
+							line = line[:j]
+						}
+						json.Unmarshal(line, &probe)
+					}
+					return len(probe.Failed) > 0 || probe.Panic != ""
+				}
+				for rep := 0; c.Repeat > 0 && rep < c.Repeat && !hit(out); rep += 8 {
+					var bmu sync.Mutex
+					var bwg sync.WaitGroup
+					for b := 0; b < 8; b++ {
+						bwg.Add(1)
+						go func() {
+							defer bwg.Done()
+							o, _ := runOne(cp)
+							bmu.Lock()
+							if hit(o) && !hit(out) {
+								out = o
+							}
+							bmu.Unlock()
+						}()
+					}
+					bwg.Wait()
+				}
 				mu.Lock()
 				parse(out)
 				if bytes.Contains(out, []byte("WARNING: DATA RACE")) {
@@ -202,7 +234,9 @@ func confirmViolation(v *ViolationCase, r *NativeResult) bool {
 		return r.Panic != ""
 	}
 	if v.Kind == "race" {
-		return r.Race
+		// the Go detector reports it, or (for unsynchronised use of a library object that locks
+		// internally) the run violates an assertion of the harness
+		return r.Race || len(r.Failed) > 0
 	}
 	for _, f := range r.Failed {
 		if f == v.Label {
